@@ -207,7 +207,9 @@ def _mbox() -> bytes:
 RTF1 = (r"{\rtf1\ansi\deff0{\fonttbl{\f0 Times;}}{\info{\title Sim Title}{\author Sim Author}{\subject Sim Subject}{\keywords k1, k2}}"
         r"\pard Hello \b bold\b0  world\par Second \'80 euro \u-10179?\u-8704? emoji\par{\footnote This is a considerably longer footnote text {\i with a nested group that is itself fairly long and wordy enough to matter} and more plain words after it}\page Page two\par"
         r"\trowd\cellx1000\cellx2000 a\cell b\cell\row\pard end}").encode()
-RTF2 = (r"{\rtf1\ansi\ansicpg1252 {\*\generator x;}{\colortbl;\red0\green0\blue0;}\pard\f0 caf\'e9 \u233? na\'efve {\i nested {\b deep}} text\par lone high \u-10179? and lone low \u-8704? and positive \u55357? units\par}").encode()
+RTF2 = (r"{\rtf1\ansi\ansicpg1252 {\fonttbl\f0\froman\fcharset0 Times New Roman;\f1\fswiss\fcharset0 Arial;\f2\fmodern\fcharset0 Courier New;"
+        r"\f3\fnil\fcharset2 Symbol;\f4\fswiss\fcharset0 Helvetica;{\f9\fswiss{\*\falt Arial}Liberation Sans;}}"
+        r"{\stylesheet\s0 Normal;\s1 heading 1;{\s2{\*\keycode x}heading 2;}}{\*\generator x;}{\colortbl;\red0\green0\blue0;}\pard\f0 caf\'e9 \u233? na\'efve {\i nested {\b deep}} text\par lone high \u-10179? and lone low \u-8704? and positive \u55357? units\par}").encode()
 HTML1 = (b"<!DOCTYPE html><html><head><title>Sim Title</title><meta name=\"author\" content=\"Sim Author\"><meta name=\"description\" content=\"Sim Description\">"
          b"<meta name=\"keywords\" content=\"k1, k2\"><style>p{color:red}</style><script>var x=1;</script></head><body><h1>Head</h1><p>para &amp; text</p>"
          b"<table><tr><th>h</th><th>i</th></tr><tr><td>1</td><td>2</td><td>3</td><td>4</td></tr><tr><td>only</td></tr></table><ul><li>one</li><li>two</li></ul><img src=\"a.png\" alt=\"pic\"></body></html>")
@@ -264,6 +266,10 @@ def generated() -> dict[str, bytes]:
     g["gen/a.tgz"] = g["gen/a.tar.gz"]
     g["gen/a.tar.bz2"] = _tar(members, "w:bz2")
     g["gen/a.tar.xz"] = _tar(members, "w:xz")
+    from .sevenz_writer import write_7z
+    ents = [{"name": n, "data": d} for n, d in members] + [{"name": "empty dir", "data": None}, {"name": "d/empty.txt", "data": b""}]
+    g["gen/a.7z"] = write_7z(ents, layout="solid", method="lzma2")
+    g["gen/perfile.7z"] = write_7z(ents, layout="per_file", method="copy", encoded_header=True)
     return g
 
 
